@@ -1113,6 +1113,75 @@ fn cases(tier: &str, seed: u64, salt: u64, quick: usize, thorough: usize) -> Vec
   out
 }
 
+/// declarations that share a name (a value and a type, a function and a namespace, a class and an
+/// interface, two interfaces, an enum and a namespace), exported or not in every combination: the
+/// emitted entrypoint keeps every exported declaration with its kind and none of the unexported,
+/// unreferenced ones
+fn merged_names_part(report: &mut Report, rng: &mut Rng, n: usize) {
+  for i in 0..n {
+    let mut text = String::new();
+    let k = 1 + rng.below(4);
+    for j in 0..k {
+      let name = format!("M{}_{}", i % 7, j);
+      let (ea, eb) = match rng.below(4) {
+        0 => (true, true),
+        1 => (true, false),
+        2 => (false, true),
+        _ => (true, true),
+      };
+      let ex = |e: bool| if e { "export " } else { "" };
+      let (a, b) = match rng.below(6) {
+        0 => (format!("{}const {}: number = 1;\n", ex(ea), name), format!("{}type {} = 1 | 2;\n", ex(eb), name)),
+        1 => (format!("{}function {}(): void {{}}\n", ex(ea), name), format!("{}namespace {} {{ export const prop: number = 1; }}\n", ex(ea), name)),
+        2 => (format!("{}class {} {{ a: string = \"\"; }}\n", ex(ea), name), format!("{}interface {} {{ extra: string }}\n", ex(ea), name)),
+        3 => (format!("{}interface {} {{ a: string }}\n", ex(ea), name), format!("{}interface {} {{ b: number }}\n", ex(ea), name)),
+        4 => (format!("{}enum {} {{ A, B }}\n", ex(ea), name), format!("{}namespace {} {{ export const x: number = 1; }}\n", ex(ea), name)),
+        _ => (format!("{}let {}: string = \"\";\n", ex(ea), name), format!("{}interface {} {{ v: number }}\n", ex(eb), name)),
+      };
+      if rng.chance(1, 2) {
+        text.push_str(&a);
+        text.push_str(&b);
+      } else {
+        text.push_str(&b);
+        text.push_str(&a);
+      }
+    }
+    let w = FcWorld {
+      main: "import * as a from \"jsr:@s/a@1\";\n".into(),
+      pkgs: vec![FcPackage { name: "@s/a".into(), version: "1.0.0".into(), exports: vec![(".".into(), "./mod.ts".into())], files: vec![("/mod.ts".into(), text.clone())] }],
+    };
+    let replay = json!({"world": w.describe()});
+    report.evaluations += 1;
+    let r = run_fast_check(&w, None, false);
+    let url = FcWorld::url(&w.pkgs[0], "/mod.ts");
+    let Some(FcSlot::Module { text: emitted, .. }) = r.slots.get(&url) else {
+      report.count("merged-names:diagnostic-or-none");
+      continue;
+    };
+    let (Ok(ps), Ok(pe)) = (fcx::parse(&url, &text), fcx::parse(&url, emitted)) else {
+      report.fail("oracle", "emitted-module-does-not-parse", format!("{}\n{}", url, emitted), replay);
+      continue;
+    };
+    let src: Vec<(String, &'static str, bool)> = fcx::X { src: &ps }.top_level();
+    let emt: Vec<(String, &'static str, bool)> = fcx::X { src: &pe }.top_level();
+    let mut want: Vec<(String, &'static str)> = src.iter().filter(|t| t.2).map(|t| (t.0.clone(), t.1)).collect();
+    let mut got: Vec<(String, &'static str)> = emt.iter().filter(|t| t.2).map(|t| (t.0.clone(), t.1)).collect();
+    want.sort();
+    got.sort();
+    if want != got {
+      report.fail("oracle", "exported-declaration-of-merged-name-changed", format!("{}: the source exports {:?}, the emitted module exports {:?}\n--- source\n{}--- emitted\n{}", url, want, got, text, emitted), replay.clone());
+    }
+    // an unexported declaration stays out unless an exported one of the same name is of a kind that merges with it
+    for t in emt.iter().filter(|t| !t.2) {
+      let merges = src.iter().any(|s| s.2 && s.0 == t.0 && matches!((s.1, t.1), ("function", "namespace") | ("namespace", "function") | ("class", "interface") | ("interface", "class") | ("interface", "interface") | ("enum", "namespace") | ("namespace", "enum") | ("class", "namespace") | ("namespace", "class")));
+      if !merges {
+        report.fail("oracle", "unexported-unreferenced-declaration-retained", format!("{}: `{}` ({}) is neither exported nor referred to by the public API\n--- source\n{}--- emitted\n{}", url, t.0, t.1, text, emitted), replay.clone());
+      }
+    }
+    report.count("merged-names:emitted");
+  }
+}
+
 pub fn run_c11(tier: &str, seed: u64) -> Report {
   let mut report = Report::new("C11");
   report.rule = "generated packages of 2-5 modules (classes, interfaces, type aliases, enums, functions, typed constants; exported, default-exported \
@@ -1258,6 +1327,10 @@ pub fn run_c11(tier: &str, seed: u64) -> Report {
       report.nontrivial.insert(format!("multi/p{}/cross{}", mw.pkgs.len(), mw.cross.len().min(8)));
       report.count(&format!("multi-package:cross-items:{}", mw.cross.len().min(8)));
     }
+  }
+  {
+    let mut rr = Rng::new(seed ^ 0xC11_3E6);
+    merged_names_part(&mut report, &mut rr, if tier == "thorough" { 3000 } else { 300 });
   }
   {
     let mut rr = Rng::new(seed ^ 0xC11_5EB);
